@@ -629,7 +629,12 @@ def oracle(c, obs):
         limit = {'marker': 15, 'linestyle': 6}.get(prop)
         distinct_expected = (limit is None or n <= limit)
         if prop == 'color':
-            distinct_expected = ('hue' not in R.prop_md) and (n < 7 or (c['palette'] is not None and n <= 64))
+            if 'hue' in R.prop_md:
+                # hue picks the colour map, color the position in it: while few of each are asked for, every
+                # (hue, color) combination has its own colour
+                distinct_expected = c['palette'] is None and len(R.prop_md['hue']['entries']) <= 5 and n <= 5
+            else:
+                distinct_expected = n < 7 or (c['palette'] is not None and n <= 64)
         if distinct_expected:
             inv = {}
             for k, v in seen.items():
